@@ -78,7 +78,51 @@ pub const COMMON_ASSUMPTIONS: &[&str] = &[
 fn o_c04(p: &Program, t: &Trace) -> Vec<Finding> {
     let mut v = o_map(p, t);
     v.extend(o_agree(p, t));
+    v.extend(o_after_clear_kept(p, t));
+    v.extend(o_lookup(p, t));
     v
+}
+
+/// Unsettled single-client histories with ample capacity: a key written exactly once in the whole
+/// program, by an insert without TTL that was called after the last clear() had returned and that
+/// returned true, and never removed, is retrievable at every lookup after the next quiescent point.
+fn o_after_clear_kept(p: &Program, t: &Trace) -> Vec<Finding> {
+    let mut out = Vec::new();
+    if is_settled(p) || p.threads.len() != 1 || p.cfg.max_cost < 100 || p.cfg.validator != ValidatorMode::Always {
+        return out;
+    }
+    let ops = &p.threads[0];
+    let last_clear = match ops.iter().rposition(|o| *o == Op::Clear) {
+        Some(i) => i,
+        None => return out,
+    };
+    if ops.iter().any(|o| matches!(o, Op::Close | Op::MaxCost { .. })) {
+        return out;
+    }
+    for k in p.keys() {
+        let writes: Vec<usize> = ops.iter().enumerate().filter(|(_, o)| matches!(o, Op::Ins { k: k2, .. } | Op::Pres { k: k2, .. } | Op::Mut { k: k2 } if *k2 == k)).map(|(i, _)| i).collect();
+        if writes.len() != 1 || writes[0] < last_clear || !matches!(ops[writes[0]], Op::Ins { ttl_ms: 0, .. }) || p.setup.iter().any(|o| o.key() == Some(k)) {
+            continue;
+        }
+        if ops.iter().any(|o| matches!(o, Op::Rem { k: k2 } if *k2 == k)) {
+            continue;
+        }
+        let w = match t.recs.iter().find(|r| r.th == 0 && r.idx == writes[0]) {
+            Some(w) if w.res == Res::Bool(true) => w,
+            _ => continue,
+        };
+        let settle_at = match ops.iter().enumerate().find(|(i, o)| *i > writes[0] && **o == Op::Settle) {
+            Some((i, _)) => i,
+            None => continue,
+        };
+        for l in t.recs.iter().filter(|r| r.th == 0 && r.idx > settle_at && matches!(r.op, Op::Get { k: k2 } if k2 == k)) {
+            if !matches!(&l.res, Res::Val(Some((v, _))) if Some(*v) == w.wrote) {
+                out.push(("map-entry-lost".to_string(), format!("{} was issued after clear() had returned (returned true, no TTL, ample capacity) but after quiescence {} returned {:?}", w.op.short(), l.op.short(), l.res)));
+                return out;
+            }
+        }
+    }
+    out
 }
 
 pub fn c04(tier: &str, flavor: Flavor) -> Spec {
@@ -122,6 +166,20 @@ pub fn c04(tier: &str, flavor: Flavor) -> Spec {
                 ops.push(Op::Get { k });
             }
             jobs.push(job(single(&cfg, flavor, settled(&ops)), &[0], "c04"));
+        }
+    }
+    // work still buffered when clear() is called, and inserts issued right after it returned: the
+    // latter are not part of what the clear discards
+    {
+        let ucfg = Cfg { buffer_size: 8, max_cost: 100, ..Cfg::default() };
+        for pre in [vec![], vec![ins(1, 1, 0)], vec![ins(1, 1, 0), ins(2, 1, 0)], vec![ins(1, 1, 0), ins(2, 1, 0), Op::Rem { k: 1 }]] {
+            for post in [vec![ins(3, 1, 0)], vec![ins(3, 1, 0), ins(4, 1, 1000)], vec![ins(3, 1, 0), Op::Wait, ins(4, 1, 0)]] {
+                let mut ops = pre.clone();
+                ops.push(Op::Clear);
+                ops.extend(post.iter().copied());
+                ops.extend([Op::Settle, Op::Get { k: 3 }, Op::Get { k: 4 }, Op::Get { k: 1 }, Op::Settle]);
+                jobs.push(job(single(&ucfg, flavor, ops), &[2], "c04-after-clear"));
+            }
         }
     }
     // a validator that refuses overwrites: a refused write changes neither the value nor the deadline
@@ -1072,6 +1130,20 @@ pub fn c08(tier: &str, flavor: Flavor) -> Spec {
     for s in sequences(&alpha, if quick { 4 } else { 5 }) {
         jobs.push(job(single(&cfg, flavor, s), &[1], "c08-seq"));
     }
+    // two keys sharing an index hash: a value refused because the slot belongs to the other key is
+    // handed to on_reject, a remove of the non-resident key takes nothing away from the owner
+    {
+        let ccfg = Cfg { keymode: KeyMode::Collide { m: 2 }, max_cost: 100, ..Cfg::default() };
+        let ca = [ins(2, 1, 0), ins(4, 1, 0), Op::Rem { k: 2 }, Op::Rem { k: 4 }, Op::Settle];
+        for s in sequences(&ca, if quick { 4 } else { 5 }) {
+            if !s.iter().any(|o| matches!(o, Op::Ins { .. })) {
+                continue;
+            }
+            let mut ops = s.clone();
+            ops.push(Op::Settle);
+            jobs.push(job(single(&ccfg, flavor, ops), &[1], "c08-colliding"));
+        }
+    }
     // clear() with inserts still buffered: the buffered ones are handed back, only residents are
     // dropped silently
     {
@@ -1282,6 +1354,12 @@ pub fn c02(tier: &str, flavor: Flavor) -> Spec {
     ] {
         jobs.push(job(conc(&cfg, flavor, &setup, threads), &[2], "c02-named"));
     }
+    // two clients clearing at the same time, each looking the key up right after ITS clear returned
+    for a in [vec![Op::Clear, Op::Get { k: 1 }], vec![Op::Clear, Op::Get { k: 1 }, Op::Get { k: 257 }]] {
+        for b in [vec![Op::Clear, Op::Get { k: 1 }], vec![Op::Clear], vec![ins(257, 1, 0), Op::Clear, Op::Get { k: 257 }]] {
+            jobs.push(job(conc(&cfg, flavor, &[ins(1, 1, 0), ins(257, 1, 0)], vec![a.clone(), b.clone()]), &[2], "c02-two-clears"));
+        }
+    }
     // two writers of one resident key under a "newer wins" validator: the validator's verdict and
     // the replacement are one atomic step, so the value of an always-resident key never goes back
     {
@@ -1395,6 +1473,12 @@ pub fn c10(tier: &str, flavor: Flavor) -> Spec {
             a.extend([Op::Wait, Op::Get { k: 1 }, Op::Get { k: 2 }, Op::Snap]);
             jobs.push(job(conc(&vcfg, flavor, &[], vec![a]), &[2], "c10-same-key"));
         }
+    }
+    // another client holds a lookup guard on the same shard while this client's insert is applied
+    // and its barrier served: Ok still means "retrievable"
+    for b in [vec![Op::GetYield { k: 1 }], vec![Op::GetYield { k: 1 }, Op::GetYield { k: 1 }], vec![Op::Mut { k: 1 }, Op::GetYield { k: 1 }]] {
+        let a = vec![ins(257, 1, 0), Op::Wait, Op::Get { k: 257 }, Op::Get { k: 1 }];
+        jobs.push(job(conc(&Cfg::default(), flavor, &[ins(1, 1, 0)], vec![a, b.clone()]), &[2], "c10-shard-held"));
     }
     // waits with nothing pending, racing close/clear directly
     for threads in [
@@ -1609,17 +1693,26 @@ pub fn c12(tier: &str, flavor: Flavor) -> Spec {
         vec![vec![Op::Close], vec![Op::Close, Op::Rem { k: 1 }]],
         vec![vec![Op::Close], vec![Op::Close, Op::Clear]],
         vec![vec![Op::Close], vec![Op::Close, ins(1, 1, 0), Op::Get { k: 1 }]],
+        // a wait() (with and without work queued before it) racing the close: it returns
+        vec![vec![Op::Close], vec![Op::Wait]],
+        vec![vec![Op::Close], vec![ins(1, 1, 0), Op::Wait]],
+        vec![vec![Op::Close], vec![Op::Wait, Op::Wait]],
     ];
     for setup in &pre {
         for sh in &shapes {
             for buffered in [false, true] {
+                // (the wait-vs-close shapes: without pre-history / buffered work in the quick tier)
+                let waits = sh.iter().skip(1).any(|t| t.contains(&Op::Wait) && !t.contains(&Op::Close));
+                if quick && waits && (buffered || !setup.is_empty()) {
+                    continue;
+                }
                 let mut threads = sh.clone();
                 if buffered {
                     // buffered, not yet applied work at the moment of close
                     threads[0].insert(0, ins(2, 1, 0));
                     threads[0].insert(0, ins(1, 1, 0));
                 }
-                let small = setup.is_empty() && !buffered && sh.len() == 2 && sh.iter().all(|t| t.len() <= 2) && sh[0].len() == 1;
+                let small = setup.is_empty() && !buffered && sh.len() == 2 && sh.iter().all(|t| t.len() <= 2) && sh[0].len() == 1 && !waits;
                 let b: &[usize] = if sh.len() > 2 {
                     if quick { &[0] } else { &[1] }
                 } else if quick {
@@ -1646,7 +1739,7 @@ pub fn c12(tier: &str, flavor: Flavor) -> Spec {
         jobs,
         oracle: o_c12,
         interesting: |_, t| t.recs.iter().any(|r| r.op == Op::Close && r.res == Res::Unit),
-        rule: "close races: Z|Z, Z|Z|Z, Z|I, Z|R, Z|X, Z|G;M, Z;Z, I;Z|I;Z, each x 2 pre-histories x {no, some} buffered work, followed on thread 0 by every kind of call on the closed cache; plus programs that drop every handle without close(); all schedules up to preemption bound 2 (3 for two-thread shapes in the thorough tier); oracle: no panic / no deadlock (engine), every call that begins after a close() returned Ok is refused without effect, both workers have terminated at the final quiescent point; non-trivial = some close() returned Ok".into(),
+        rule: "close races: Z|Z, Z|Z|Z, Z|I, Z|R, Z|X, Z|G;M, Z;Z, I;Z|I;Z, Z|W, Z|I;W, Z|W;W, each x 2 pre-histories x {no, some} buffered work, followed on thread 0 by every kind of call on the closed cache; plus programs that drop every handle without close(); all schedules up to preemption bound 2 (3 for two-thread shapes in the thorough tier); oracle: no panic / no deadlock (engine), every call that begins after a close() returned Ok is refused without effect, both workers have terminated at the final quiescent point; non-trivial = some close() returned Ok".into(),
         assumptions: {
             let mut a = all_std();
             a.push("drop-without-close relies on the fairness rule of DESIGN §4.1 for the disconnected-channel spin of the worker".into());
@@ -1731,7 +1824,7 @@ pub fn c17(tier: &str, flavor: Flavor) -> Spec {
     }
     // E-conc with the metric stripes as scheduling points
     let cfg = Cfg { metrics: true, metrics_points: true, max_cost: 2, ..Cfg::default() };
-    let calpha = [Op::Get { k: 1 }, ins(1, 1, 0), ins(3, 1, 0), Op::Rem { k: 1 }];
+    let calpha = [Op::Get { k: 1 }, Op::Mut { k: 1 }, ins(1, 1, 0), ins(3, 1, 0), Op::Rem { k: 1 }];
     let bs = bodies(&calpha, if quick { 1 } else { 2 });
     for setup in [vec![], vec![ins(1, 1, 0), ins(2, 1, 0)]] {
         for a in &bs {
@@ -1764,7 +1857,7 @@ pub fn c17(tier: &str, flavor: Flavor) -> Spec {
         oracle: o_c17,
         interesting: |_, t| t.snaps.last().and_then(|s| s.metrics.as_ref()).map(|m| m.keys_added > 0 || m.hits > 0).unwrap_or(false),
         rule: format!(
-            "metrics on. E-seq: every settled history of depth {} over 13 symbols (I(k), I(1,2), I(2,1s), P(1), R(1), G(1), G(3), M(2), A(1.5s), X, U(1)) at max_cost 2 and 100, and once more with zero-charge entries, conservation laws evaluated at EVERY quiescent point; unsettled histories over {{I(1), I(2), I(3), I(1), G(1), S}} with insert buffer 1 and 2 (forces sets_dropped); E-conc: two clients x bodies of <= {} operations from {{G(1), I(1), I(3), R(1)}} x 2 pre-states with the metric stripes as scheduling points, preemption bound 2; the same bodies against a client doing X / X;I(3) / I(3);X at bound 2; two clearing clients (lookups before / after their clears) at bound 1; one settled history (hit, miss, update, TTL expiry, remove, clear, fresh start) per metrics stripe (keys 25..49); non-trivial = keys_added > 0 or hits > 0",
+            "metrics on. E-seq: every settled history of depth {} over 13 symbols (I(k), I(1,2), I(2,1s), P(1), R(1), G(1), G(3), M(2), A(1.5s), X, U(1)) at max_cost 2 and 100, and once more with zero-charge entries, conservation laws evaluated at EVERY quiescent point; unsettled histories over {{I(1), I(2), I(3), I(1), G(1), S}} with insert buffer 1 and 2 (forces sets_dropped); E-conc: two clients x bodies of <= {} operations from {{G(1), M(1), I(1), I(3), R(1)}} x 2 pre-states with the metric stripes as scheduling points, preemption bound 2; the same bodies against a client doing X / X;I(3) / I(3);X at bound 2; two clearing clients (lookups before / after their clears) at bound 1; one settled history (hit, miss, update, TTL expiry, remove, clear, fresh start) per metrics stripe (keys 25..49); non-trivial = keys_added > 0 or hits > 0",
             if quick { 3 } else { 4 },
             if quick { 1 } else { 2 }
         ),
@@ -1949,6 +2042,15 @@ pub fn c18(tier: &str, flavor: Flavor) -> Spec {
             jobs.push(job(single(&cfg, flavor, ops), &[1], "c18-unsettled"));
         }
     }
+    // two clients on the colliding pair: one updates key 2 in place while the other removes it and
+    // inserts key 4 (the processor applying Delete and New in between)
+    for t1 in [vec![ins(2, 1, 0)], vec![ins(2, 1, 1000)], vec![Op::Pres { k: 2, c: 1 }], vec![Op::Mut { k: 2 }]] {
+        for t2 in [vec![Op::Rem { k: 2 }, ins(4, 1, 0), Op::Wait], vec![Op::Rem { k: 2 }, ins(4, 1, 0)], vec![ins(4, 1, 0), Op::Rem { k: 2 }, Op::Wait, ins(4, 1, 0)]] {
+            let mut p = conc(&cfg, flavor, &[ins(2, 1, 0)], vec![t1.clone(), t2.clone()]);
+            p.post = vec![Op::Settle, Op::Get { k: 2 }, Op::Get { k: 4 }, Op::Ttl { k: 4 }];
+            jobs.push(job(p, &[2], "c18-conc"));
+        }
+    }
     // the colliding pair with expiring entries: an entry whose TTL has run out but which has not
     // been swept yet still owns its slot and its conflict hash
     for ops in expiring_collide_histories(quick) {
@@ -2123,6 +2225,15 @@ pub fn c20(tier: &str, flavor: Flavor) -> Spec {
                 }
             }
         }
+    }
+    // lookups from two clients through their own handles (they share the lookup ring)
+    for buffer_items in [0usize, 1, 2] {
+        let cfg = Cfg { buffer_items, ..Cfg::default() };
+        let a = vec![Op::Get { k: 1 }, Op::Get { k: 2 }, Op::Mut { k: 1 }];
+        let b = vec![Op::Get { k: 1 }, Op::Get { k: 3 }];
+        let mut p = conc(&cfg, flavor, &[ins(1, 1, 0)], vec![a, b]);
+        p.post = vec![Op::Settle, Op::Wait, ins(7, 1, 0), Op::Settle];
+        jobs.push(job(p, &[2], "c20-two-clients"));
     }
     // residents charged exactly zero among the eviction candidates (cost 0, Coster 0, internal cost
     // ignored): every admission still terminates
@@ -2301,6 +2412,16 @@ pub fn c15(tier: &str, flavor: Flavor) -> Spec {
     for a in bodies(&[Op::Get { k: 1 }, Op::Get { k: 2 }], 2) {
         for b in bodies(&[Op::Get { k: 1 }, Op::Get { k: 2 }], 2) {
             jobs.push(job(conc(&cfg, flavor, &[ins(1, 1, 0)], vec![a.clone(), b.clone()]), &[2], "c15-conc"));
+        }
+    }
+    // two clients flushing one-lookup batches while the worker lags: the queue fills between one
+    // client's fullness test and its send
+    for capa in [0usize, 1] {
+        let cfg = Cfg { buffer_items: capa, metrics: true, num_counters: 1000, ..Cfg::default() };
+        for (a, b) in [(2usize, 2usize), (3, 1), (2, 3)] {
+            let ta: Vec<Op> = (0..a).map(|i| Op::Get { k: 1 + (i as u64 % 2) }).collect();
+            let tb: Vec<Op> = (0..b).map(|i| Op::Get { k: 2 - (i as u64 % 2) }).collect();
+            jobs.push(job(conc(&cfg, flavor, &[ins(1, 1, 0)], vec![ta, tb]), &[2], "c15-two-flushers"));
         }
     }
     // lookups flushed while the processor (admissions, updates, removes) or another client
